@@ -59,7 +59,7 @@ static void c07_run(vf_case *c)
         fact_free(&R);
     }
     /* (2) caller workspace: geometric ladder of lengths down to the first failure, both alignments, two fill estimates */
-    if (sizeof(int_t) == 4) {
+    {
         size_t G = generous_lwork(P, n, A.nnz); unsigned char *buf0 = malloc(G + 64);
         int nws = 0, nshort = 0;
         for (int pass = 0; pass < 2 && c->nmore < 3; pass++) {
